@@ -203,6 +203,8 @@ class Impl:
         if k == 'fill':
             return [(op['out'], self.ref(op['t']).fill_to(self.subs[op['solvent']], qty_str(op['q'])))]
         if k == 'dilute':
+            if op.get('named'):     # the optional name= argument takes another path through the library; the model has no names to compare
+                return [(op['out'], self.env[op['v']].dilute(self.subs[op['solute']], conc_str(op['c']), self.subs[op['solvent']], f"d{op['out']}"))]
             return [(op['out'], self.env[op['v']].dilute(self.subs[op['solute']], conc_str(op['c']), self.subs[op['solvent']]))]
         if k in ('solution', 'solutionc'):
             kw = {}
